@@ -61,7 +61,10 @@ class C04(Suite):
                     yield {"budget": B, "tags": [{"name": "T", "type": ty, "len": L, "addr": None}], "plan": plan,
                            "via_client": k % 2 == 0,     # every other device: requests built by cpppo's own client methods
                            # every third device: the budget is set on the serving object, the class keeps its default
-                           "budget_on": "instance" if k % 3 == 0 else "class"}
+                           # ... every seventh: class and object keep the default, each in-process request
+                           # states the budget itself (`read_frag.max_size`; reads only - the plan's writes are
+                           # single-fragment there, the write reply carries no data)
+                           "budget_on": "request" if k % 7 == 3 else "instance" if k % 3 == 0 else "class"}
         # write tilings: all compositions of n <= 6 (quick: <= 4)
         nmax = 4 if tier == "quick" else 6
         for siz, tys in SIZED.items():
@@ -129,7 +132,11 @@ class C04(Suite):
                     while guard < most:
                         guard += 1
                         r = {"op": "rf", "path": [["s", "T"], ["e", t["idx"]]], "n": t["n"], "off": off}
-                        if t.get("elide"):
+                        if c.get("budget_on") == "request":
+                            r.update(direct=True, max_size=c["budget"])
+                            if t.get("elide"):
+                                r.update(elide_n=True)
+                        elif t.get("elide"):
                             r.update(direct=True, elide_n=True)
                         elif c.get("via_client") and t["n"] >= 1:
                             r["via_client"] = True
